@@ -120,5 +120,5 @@ def run_pass(ctx, runs):
                                      "Syntax.flatprog / Types.tenv (the comparison, PassCNMatch.cn_matches, runs inside Coq)"]
     ctx.assumptions += ["ConditionsNormalizer: C02_cn_pass_preserves needs Types.check_types (C05 validator; evaluated on every instance: "
                         f"{st['hypothesis_check_types']}/{st['in_model']} true) and init_ok; the Bernoulli abstraction of conditions over "
-                        f"variables without a finite type is outside the model ({st['outside_model_abstraction_or_unreduced']} instances) and "
+                        f"variables without a finite type is outside THIS model ({st['outside_model_abstraction_or_unreduced']} instances; its own model and theorem: pass_abstraction.py / props/C02_Abstraction.v) and "
                         "covered only by c02's bounded joint-law comparison"]
